@@ -308,6 +308,8 @@ func checkC06(c *Ctx) {
 
 	// ---- C06-LEX
 	c.checkOperatorLexable(regs)
+	c.checkSignContext(regs)
+	c.checkOperandStackEnds()
 }
 
 func exprSpaced(e ast.Expr) string {
@@ -490,4 +492,162 @@ func expandConcat(r *syntax.Regexp) []string {
 func isObj(c *Ctx, e ast.Expr, obj types.Object) bool {
 	id, ok := e.(*ast.Ident)
 	return ok && obj != nil && c.Zygo.TypesInfo.ObjectOf(id) == obj
+}
+
+// checkSignContext: C06-SIGN. A `-` written directly after a binary operator
+// starts a negative literal only if the lexer's sign-context set contains the
+// operator's last rune; the set and the operator table must agree, otherwise
+// `a*-1` and `a * -1` parse differently for that operator.
+func (c *Ctx) checkSignContext(regs []opReg) {
+	fd := c.funcDecl("canStartSignedNumberAfter")
+	if fd == nil {
+		c.undecided("C06-SIGN", "canStartSignedNumberAfter", "anchor", token.NoPos, "the lexer's sign-context predicate was not found")
+		return
+	}
+	set := map[rune]bool{}
+	ast.Inspect(fd.Body, func(n ast.Node) bool {
+		cc, ok := n.(*ast.CaseClause)
+		if !ok {
+			return true
+		}
+		returnsTrue := false
+		for _, st := range cc.Body {
+			if rs, ok := st.(*ast.ReturnStmt); ok && len(rs.Results) == 1 {
+				if tv := c.Zygo.TypesInfo.Types[rs.Results[0]]; tv.Value != nil && tv.Value.Kind() == constant.Bool && constant.BoolVal(tv.Value) {
+					returnsTrue = true
+				}
+			}
+		}
+		if !returnsTrue {
+			return true
+		}
+		for _, e := range cc.List {
+			if tv := c.Zygo.TypesInfo.Types[e]; tv.Value != nil && tv.Value.Kind() == constant.Int {
+				if v, ok := constant.Int64Val(tv.Value); ok {
+					set[rune(v)] = true
+				}
+			}
+		}
+		return true
+	})
+	if len(set) < 5 {
+		c.undecided("C06-SIGN", "canStartSignedNumberAfter", "case list", fd.Pos(), fmt.Sprintf("only %d runes found in the sign-context set; the predicate is no longer a switch over rune constants", len(set)))
+		return
+	}
+	n := 0
+	for _, r := range regs {
+		if r.ctor == "PostfixAssign" || r.ctor == "Prefix" || r.op == "." {
+			continue // nothing is written to the right of a postfix operator; field access takes a name
+		}
+		rs := []rune(r.op)
+		last := rs[len(rs)-1]
+		if !strings.ContainsRune("+-*/<>=!&|:%^~", last) {
+			continue // word operators are separated from a literal by white space
+		}
+		n++
+		c.check(set[last], "C06-SIGN", "canStartSignedNumberAfter", "after operator "+r.op, r.pos,
+			"a minus sign directly after this operator starts a negative literal, as it does after white space",
+			fmt.Sprintf("the lexer does not treat %q as a rune after which `-` starts a number: `a%s-1` is lexed as two operators while `a %s -1` is not, so the two spellings of one expression parse differently", string(last), r.op, r.op))
+	}
+	if n < 12 {
+		c.undecided("C06-SIGN", "canStartSignedNumberAfter", "operators", fd.Pos(), fmt.Sprintf("only %d binary operator spellings checked", n))
+	}
+}
+
+// checkOperandStackEnds: C06-STACK. Every site that pushes, pops or reads the
+// top of Pratt.CnodeStack must use the same end of the slice.
+func (c *Ctx) checkOperandStackEnds() {
+	fld := c.field("Pratt", "CnodeStack")
+	if fld == nil {
+		c.undecided("C06-STACK", "Pratt", "CnodeStack", token.NoPos, "field not found")
+		return
+	}
+	info := c.Zygo.TypesInfo
+	isStack := func(e ast.Expr) bool {
+		sel, ok := e.(*ast.SelectorExpr)
+		return ok && info.Uses[sel.Sel] == types.Object(fld)
+	}
+	isLenMinus1 := func(e ast.Expr) bool {
+		be, ok := e.(*ast.BinaryExpr)
+		if !ok || be.Op != token.SUB {
+			return false
+		}
+		if tv := info.Types[be.Y]; tv.Value == nil || tv.Value.String() != "1" {
+			return false
+		}
+		call, ok := be.X.(*ast.CallExpr)
+		if !ok || len(call.Args) != 1 {
+			return false
+		}
+		id, ok := call.Fun.(*ast.Ident)
+		return ok && id.Name == "len" && isStack(call.Args[0])
+	}
+	isConst := func(e ast.Expr, want string) bool {
+		tv := info.Types[e]
+		return tv.Value != nil && tv.Value.String() == want
+	}
+	type site struct {
+		end  string
+		what string
+		pos  token.Pos
+		fn   string
+	}
+	var sites []site
+	for _, f := range c.Zygo.Syntax {
+		for _, d := range f.Decls {
+			fd, ok := d.(*ast.FuncDecl)
+			if !ok || fd.Body == nil {
+				continue
+			}
+			name := declName(fd)
+			ast.Inspect(fd.Body, func(n ast.Node) bool {
+				switch x := n.(type) {
+				case *ast.IndexExpr:
+					if isStack(x.X) {
+						switch {
+						case isConst(x.Index, "0"):
+							sites = append(sites, site{"head", "reads/writes slot 0", x.Pos(), name})
+						case isLenMinus1(x.Index):
+							sites = append(sites, site{"tail", "reads/writes the last slot", x.Pos(), name})
+						}
+					}
+				case *ast.SliceExpr:
+					if isStack(x.X) {
+						switch {
+						case x.Low != nil && isConst(x.Low, "1") && x.High == nil:
+							sites = append(sites, site{"head", "pops slot 0", x.Pos(), name})
+						case x.Low == nil && x.High != nil && isLenMinus1(x.High):
+							sites = append(sites, site{"tail", "pops the last slot", x.Pos(), name})
+						}
+					}
+				case *ast.CallExpr:
+					if id, ok := x.Fun.(*ast.Ident); ok && id.Name == "append" && len(x.Args) >= 2 {
+						if isStack(x.Args[0]) {
+							sites = append(sites, site{"tail", "appends (pushes at the end)", x.Pos(), name})
+						} else if x.Ellipsis.IsValid() && isStack(x.Args[len(x.Args)-1]) {
+							sites = append(sites, site{"head", "prepends (pushes at slot 0)", x.Pos(), name})
+						}
+					}
+				}
+				return true
+			})
+		}
+	}
+	if len(sites) < 4 {
+		c.undecided("C06-STACK", "Pratt", "CnodeStack sites", token.NoPos, fmt.Sprintf("only %d push/pop/top sites of the operand stack recognised", len(sites)))
+		return
+	}
+	count := map[string]int{}
+	for _, s := range sites {
+		count[s.end]++
+	}
+	major := "head"
+	if count["tail"] > count["head"] {
+		major = "tail"
+	}
+	for _, s := range sites {
+		c.check(s.end == major, "C06-STACK", s.fn, s.what, s.pos,
+			"uses the "+major+" of the slice as the top of the operand stack, like every other site",
+			fmt.Sprintf("this site %s while %d other sites use the %s of the slice as the top of the stack: the operator reads an outer operator's token instead of its own operand", s.what, count[major], major))
+	}
 }
